@@ -6,6 +6,8 @@ A *site* is one of
     `D[K'] = …` on the same container `D`, where `D` outlives the call (it is not created as a fresh dict/list literal in that function):
     kind 'dict', key = the source text of `K`;
   * a parameter whose default is a mutable literal (`{}`, `[]`) and which the body writes to: kind 'mutable-default';
+  * a class-level mutable attribute (dict/list literal in the class body) that a method aliases without copying or mutates in place: kind 'class-state';
+  * a method assigning to an attribute of its own class (`self.__class__.X = …`): kind 'class-attr-assign';
   * a lazily computed attribute (`if self.X is None: self.X = …; return self.X`): kind 'attribute-memo';
   * a container received as a parameter (typically `**kwargs`) that is written inside a `for`/`while` body: kind 'loop-carried';
   * a module-level mutable container mutated from inside a function (`NAME[…] = …`, `NAME.append/update/setdefault`): kind 'global-state'.
@@ -40,6 +42,39 @@ def scan_module(path, rel):
                 module_containers.add(n.targets[0].id)          # empty literal at module level: a container to be filled at run time
             elif isinstance(v, ast.Call) and isinstance(v.func, ast.Name) and v.func.id in ('dict', 'list', 'set') and not v.args and not v.keywords:
                 module_containers.add(n.targets[0].id)
+    # class-level mutable attributes that methods alias (`self.x = self.NAME`, no copy) or mutate in place: one object for all the instances
+    MUT = ('append', 'update', 'setdefault', 'add', 'extend', 'pop', 'clear', 'insert', 'remove', 'sort')
+    for cls in [n for n in ast.walk(tree) if isinstance(n, ast.ClassDef)]:
+        names = set()
+        for n in cls.body:
+            if isinstance(n, ast.Assign) and len(n.targets) == 1 and isinstance(n.targets[0], ast.Name):
+                v = n.value
+                if isinstance(v, (ast.Dict, ast.List, ast.Set)) or (isinstance(v, ast.Call) and isinstance(v.func, ast.Name) and v.func.id in ('dict', 'list', 'set')):
+                    names.add(n.targets[0].id)
+        if not names:
+            continue
+        def is_cls_attr(x):
+            return isinstance(x, ast.Attribute) and x.attr in names and isinstance(x.value, ast.Name) and x.value.id in ('self', 'cls', cls.name)
+        for m in [n for n in ast.walk(cls) if isinstance(n, (ast.FunctionDef, ast.AsyncFunctionDef))]:
+            for n in ast.walk(m):
+                if isinstance(n, ast.Assign) and is_cls_attr(n.value):
+                    sites.append((rel, '%s.%s' % (cls.name, m.name), 'class-state', n.value.attr, 'aliased as ' + ast.unparse(n.targets[0])))
+                if isinstance(n, (ast.Assign, ast.AugAssign)):
+                    for t in (n.targets if isinstance(n, ast.Assign) else [n.target]):
+                        if isinstance(t, ast.Subscript) and is_cls_attr(t.value):
+                            sites.append((rel, '%s.%s' % (cls.name, m.name), 'class-state', t.value.attr, 'item store'))
+                        if isinstance(n, ast.AugAssign) and is_cls_attr(t):
+                            sites.append((rel, '%s.%s' % (cls.name, m.name), 'class-state', t.attr, 'augmented in place'))
+                if isinstance(n, ast.Call) and isinstance(n.func, ast.Attribute) and n.func.attr in MUT and is_cls_attr(n.func.value):
+                    sites.append((rel, '%s.%s' % (cls.name, m.name), 'class-state', n.func.value.attr, n.func.attr))
+    # a method that assigns to an attribute of the class itself (`self.__class__.X = …`, `type(self).X = …`, `cls.X = …`): set once, seen by all
+    for cls in [n for n in ast.walk(tree) if isinstance(n, ast.ClassDef)]:
+        for m in [n for n in ast.walk(cls) if isinstance(n, (ast.FunctionDef, ast.AsyncFunctionDef))]:
+            for n in ast.walk(m):
+                if isinstance(n, (ast.Assign, ast.AugAssign)):
+                    for t in (n.targets if isinstance(n, ast.Assign) else [n.target]):
+                        if isinstance(t, ast.Attribute) and ast.unparse(t.value) in ('self.__class__', 'type(self)', 'cls', cls.name):
+                            sites.append((rel, '%s.%s' % (cls.name, m.name), 'class-attr-assign', t.attr, ast.unparse(t.value)))
     for fn in [n for n in ast.walk(tree) if isinstance(n, (ast.FunctionDef, ast.AsyncFunctionDef))]:
         for d in fn.decorator_list:
             txt = ast.unparse(d)
